@@ -113,6 +113,26 @@ namespace
         }
     };
 
+    // an *empty* Mutex type: a handle onto one lock shared by everybody who uses it (a valid
+    // BasicLockable; emptiness says nothing about whether locking is needed)
+    std::unique_ptr<VMutex> g_shared_lock;
+    struct EMutex
+    {
+        void lock()
+        {
+            g_shared_lock->lock();
+        }
+        bool try_lock()
+        {
+            return g_shared_lock->try_lock();
+        }
+        void unlock()
+        {
+            g_shared_lock->unlock();
+        }
+    };
+    static_assert(std::is_empty<EMutex>::value, "EMutex must be an empty class");
+
     // the mutex that must be held when the wrapped allocator is entered (nullptr: none expected)
     std::atomic<VMutex*> g_expected{nullptr};
     std::atomic<int>     g_inside{0};
@@ -1395,7 +1415,7 @@ namespace
         {
             if (spec.property == "C14")
                 return run_c14(p, ci, FOONATHAN_MEMORY_TEMPORARY_STACK_MODE == 1);
-            unsigned which = p.params.empty() ? 0 : p.params[0] % 9;
+            unsigned which = p.params.empty() ? 0 : p.params[0] % 11;
             switch (which)
             {
             case 0:
@@ -1439,6 +1459,26 @@ namespace
                 using S  = fm::thread_safe_allocator<TA, VMutex>;
                 return run_c13<S>("thread_safe_allocator<tracked<Shell>>,VMutex", p, ci,
                                   [](Shell&) { return new S(TA(NullTracker{}, Shell(4))); });
+            }
+            case 9:
+            {
+                using S = fm::thread_safe_allocator<Shell, EMutex>;
+                return run_c13<S>("thread_safe_allocator<Shell,EmptyMutex>", p, ci,
+                                  [](Shell&)
+                                  {
+                                      g_shared_lock.reset(new VMutex); // registers itself as the expected mutex
+                                      return new S(Shell(5));
+                                  });
+            }
+            case 10:
+            {
+                using S = fm::allocator_storage<fm::reference_storage<Shell>, EMutex>;
+                return run_c13<S>("reference<Shell>,EmptyMutex", p, ci,
+                                  [](Shell& t)
+                                  {
+                                      g_shared_lock.reset(new VMutex);
+                                      return new S(t);
+                                  });
             }
             default:
             {
